@@ -122,7 +122,9 @@ Definition value_string (v : value) : outcome bstr := to_string (S (depth v)) v.
 
 (* ---- Index / Key ---- *)
 Definition list_index (l : list value) (i : Z) : value :=
-  if (i <? 0)%Z then VUndef else match nth_error l (Z.to_nat i) with Some x => x | None => VUndef end.
+  (* the upper bound is tested first so that a 53-bit index is never converted to a unary nat *)
+  if (i <? 0)%Z || (Z.of_nat (length l) <=? i)%Z then VUndef
+  else match nth_error l (Z.to_nat i) with Some x => x | None => VUndef end.
 Definition map_key (m : list (bstr * value)) (k : bstr) : value :=
   match assoc_s k m with Some x => x | None => VUndef end.
 
